@@ -122,9 +122,11 @@ theorem C16_mirrored_functions :
        "return hash((self.filename, self.line, self.column))"]
     ∧ Gen.Order.parseIncludeShape =
       ["parser = None", "if self._cachestore is not None:", "    parser = self._cachestore.load(filename)",
-       "if parser is None:", "    parser = GIRParser(types_only=not self._passthrough_mode)",
+       "if parser is None:", "    if self._cachestore is not None:",
+       "        source_mtime_ns = os.stat(filename).st_mtime_ns",
+       "    parser = GIRParser(types_only=not self._passthrough_mode)",
        "    parser.parse(filename)", "    if self._cachestore is not None:",
-       "        self._cachestore.store(filename, parser)",
+       "        self._cachestore.store(filename, parser, source_mtime_ns)",
        "for include in sorted(parser.get_namespace().includes):",
        "    if include.name not in self._parsed_includes:",
        "        dep_filename = self._find_include(include)", "        self._parse_include(dep_filename)",
